@@ -126,7 +126,7 @@ _add(
         "requirement_constraint_evaluation with harness evaluators; oracle: recursive reference evaluator on the generator's AST + documented "
         "outcome mapping. distinct non-trivial = distinct expression strings with >= 2 requirement keys and a hint or format constraint"
     ),
-    deciding={"any": {"expressions": 300, "nontrivial_expressions": 100, "evaluations_with_unknown": 1000, "async_evaluations": 500, "evaluations_with_shipped_evaluators": 200}},
+    deciding={"any": {"expressions": 300, "nontrivial_expressions": 100, "evaluations_with_unknown": 1000, "async_evaluations": 500, "evaluations_with_shipped_evaluators": 200, "small_scope_expressions": 1000}},
     headline=["expressions", "nontrivial_expressions", "async_evaluations", "operator_calls_observed"],
 )
 
@@ -159,7 +159,7 @@ _add(
         "evaluate_ahb_expression_tree with harness evaluators and through is_valid_expression with the ContentEvaluationResult based evaluators "
         "and a ContextVar setter. Oracle: the structural predicate of the property statement. distinct non-trivial = distinct expression strings"
     ),
-    deciding={"any": {"invalid_expressions": 200, "valid_expressions": 200, "invalid:hint-with-fc": 20, "invalid:neutral-with-rc": 100, "ahb_invalid": 15, "ahb_valid": 15, "is_valid_expression_calls": 30, "neutral_only_expressions": 100, "failed_evaluations_in_between": 50, "is_valid_expression_calls_with_tree": 10}},
+    deciding={"any": {"invalid_expressions": 200, "valid_expressions": 200, "invalid:hint-with-fc": 20, "invalid:neutral-with-rc": 100, "ahb_invalid": 15, "ahb_valid": 15, "is_valid_expression_calls": 30, "neutral_only_expressions": 100, "failed_evaluations_in_between": 50, "is_valid_expression_calls_with_tree": 10, "small_scope_expressions": 2900}},
     headline=["valid_expressions", "invalid_expressions", "ahb_valid", "ahb_invalid", "is_valid_expression_calls"],
 )
 
@@ -175,7 +175,7 @@ _add(
         "returned by requirement_constraint_evaluation is additionally fed to format_constraint_evaluation. distinct non-trivial = distinct "
         "expression strings with >= 2 format-constraint keys"
     ),
-    deciding={"any": {"expressions": 300, "present_expressions": 1000, "absent_expressions": 300, "expressions_with_2plus_fc_keys": 100, "async_evaluations": 300}},
+    deciding={"any": {"expressions": 300, "present_expressions": 1000, "absent_expressions": 300, "expressions_with_2plus_fc_keys": 100, "async_evaluations": 300, "small_scope_expressions": 1000}},
     headline=["expressions", "present_expressions", "absent_expressions", "silent_corner_cases", "async_evaluations"],
 )
 
@@ -191,7 +191,7 @@ _add(
         "or the default the base evaluator inserts); absent and empty expression. Oracle: Boolean value of the AST; message present iff "
         "unfulfilled. distinct non-trivial = distinct expression strings mixing >= 2 operator kinds"
     ),
-    deciding={"any": {"expressions": 300, "expressions_mixing_operators": 100, "unfulfilled_results": 1000, "fulfilled_results": 1000, "async_evaluations": 500, "empty_expressions": 2, "evaluations_without_messages": 1000, "async_evaluations_under_random_completion_order": 200, "evaluations_with_shipped_evaluators": 200, "concurrent_evaluations": 200}},
+    deciding={"any": {"expressions": 300, "expressions_mixing_operators": 100, "unfulfilled_results": 1000, "fulfilled_results": 1000, "async_evaluations": 500, "empty_expressions": 2, "evaluations_without_messages": 1000, "async_evaluations_under_random_completion_order": 200, "evaluations_with_shipped_evaluators": 200, "concurrent_evaluations": 200, "small_scope_expressions": 500}},
     headline=["expressions", "expressions_mixing_operators", "fulfilled_results", "unfulfilled_results", "async_evaluations"],
 )
 
@@ -372,11 +372,12 @@ _add(
 
 # what the workloads gained after the first version (see DESIGN.md section 10.4); appended to the rule texts
 RULE_ADDITIONS = {
+    "C07": "small scope, complete: EVERY structurally valid expression with up to 3 (thorough: 4) leaves over {[1], [2], [501], [901], [902]} under all assignments.",
     "C02": "every 7th string is parsed twice (same verdict); sequences 'well-formed string whose package is malformed -> repaired table / no package resolution'.",
-    "C04": "half of the async evaluations run under a random completion order; every fourth expression also through the library's own evaluators (dictionary based, ContentEvaluationResult based with fresh and with ONE long-lived in-place refreshed EvaluatableData, user evaluator classes with instance state and new instances per message), assignments consecutively per mode; re-evaluation with the same tree and input node objects.",
+    "C04": "small scope, complete: EVERY structurally valid expression with up to 3 (thorough: 4) leaves over {[1], [2], [501], [901], [902]} under all 3^k assignments; half of the async evaluations run under a random completion order; every fourth expression also through the library's own evaluators (dictionary based, ContentEvaluationResult based with fresh and with ONE long-lived in-place refreshed EvaluatableData, user evaluator classes with instance state and new instances per message), assignments consecutively per mode; re-evaluation with the same tree and input node objects.",
     "C05": "fresh keys include the ends of the hint / format-constraint ranges; up to six variants per expression also through the async API, mostly under a random completion order.",
-    "C06": "is_valid_expression also on the already resolved tree; a class of expressions built from hints and format constraints alone (the 'directly combines a single hint with a single format constraint' boundary); failing out-of-domain evaluations interleaved with the judged ones.",
-    "C08": "message-less constraints through the tree evaluator (Boolean clause only); async evaluations mostly under a random completion order; the library's dictionary / ContentEvaluationResult based evaluators with and without messages; 2-5 concurrent evaluations of one expression with different texts (no foreign text in a message).",
+    "C06": "small scope, complete: EVERY expression of the domain (valid and invalid) with up to 3 (thorough: 4) leaves over {[1], [2], [501], [901], [902]} under all assignments; is_valid_expression also on the already resolved tree; a class of expressions built from hints and format constraints alone (the 'directly combines a single hint with a single format constraint' boundary); failing out-of-domain evaluations interleaved with the judged ones.",
+    "C08": "small scope, complete: EVERY U/O/X expression with up to 3 (thorough: 4) leaves over three keys (minimal brackets / flat runs, all spellings) under all truth assignments; message-less constraints through the tree evaluator (Boolean clause only); async evaluations mostly under a random completion order; the library's dictionary / ContentEvaluationResult based evaluators with and without messages; 2-5 concurrent evaluations of one expression with different texts (no foreign text in a message).",
     "C09": "every fifth case an AHB expression whose parts are written with packages (several per part, different nesting depths) evaluated after resolution against the parts' own written-out condition expressions; the first assignment of every expression also through the library's own dictionary / ContentEvaluationResult based evaluators (same result as with equivalent user evaluators).",
     "C10": "half of the cases also through the library's own package resolvers (dictionary based; ContentEvaluationResult based with the same resolver instances and changing data).",
     "C11": "every pool string also goes to the OTHER parser before, during and after the history (must stay a SyntaxError).",
